@@ -11,10 +11,12 @@ namespace TantivyModel.Columnar
 
 /-- mirrors: common/src/vint.rs::VInt::serialize_into — 7 bits per byte, low first, stop bit 128 on
 the last byte. -/
-def vintEnc (n : Nat) : Bytes :=
-  if h : n < 128 then [n + 128] else n % 128 :: vintEnc (n / 128)
-termination_by n
-decreasing_by omega
+def vintEncAux : Nat → Nat → Bytes
+  | 0, n => [n % 128 + 128]
+  | fuel + 1, n => if n < 128 then [n + 128] else n % 128 :: vintEncAux fuel (n / 128)
+
+/-- a u64 needs at most 10 bytes -/
+def vintEnc (n : Nat) : Bytes := vintEncAux 9 n
 
 /-- mirrors: common/src/vint.rs::VInt::deserialize; `none` = "Reach end of buffer". -/
 def vintDecAux : Bytes → Nat → Nat → Option (Nat × Bytes)
@@ -76,6 +78,14 @@ def bitpackedEnc (vals : List Nat) : Bytes :=
 /-- mirrors: u64_based/bitpacked.rs::BitpackedReader::get_val -/
 def bitpackedGet (s : Stats) (data : Bytes) (i : Nat) : Nat :=
   s.min + s.gcd * unpackGet (bitpackedNumBits s) i data
+
+/-- mirrors: u64_based/bitpacked.rs::transform_range_before_linear_transformation for a non-empty
+query range `lo..=hi`: both bounds `saturating_sub(min)`, lower bound `div_ceil gcd`, upper bound
+`/ gcd`; the result is compared with the stored (normalised) values. -/
+def transformRange (s : Stats) (lo hi : Nat) : Nat × Nat :=
+  let a := lo - s.min
+  let b := hi - s.min
+  ((if a % s.gcd > 0 then a / s.gcd + 1 else a / s.gcd), b / s.gcd)
 
 /-! ## Line (u64_based/line.rs), wrapping arithmetic on `BitVec 64` -/
 
@@ -172,14 +182,12 @@ structure BwBlock where
   width : Nat
 deriving Repr
 
-def chunks (n : Nat) (l : List α) : List (List α) :=
-  if h : n = 0 ∨ l = [] then [] else l.take n :: chunks n (l.drop n)
-termination_by l.length
-decreasing_by
-  have h1 : l ≠ [] := fun e => h (Or.inr e)
-  have h2 : 0 < l.length := List.length_pos_iff.mpr h1
-  have h3 : n ≠ 0 := fun e => h (Or.inl e)
-  simp only [List.length_drop]; omega
+def chunksAux (n : Nat) : Nat → List α → List (List α)
+  | 0, _ => []
+  | fuel + 1, l => if n = 0 || l.isEmpty then [] else l.take n :: chunksAux n fuel (l.drop n)
+
+/-- consecutive chunks of `n` elements (the last one may be shorter) -/
+def chunks (n : Nat) (l : List α) : List (List α) := chunksAux n l.length l
 
 /-- one block of the serializer: normalise, train, offsets, width -/
 def bwBlockEnc (s : Stats) (block : List Nat) : BwBlock × List Nat :=
